@@ -25,6 +25,7 @@ import (
 	"go/constant"
 	"go/token"
 	"go/types"
+	"sort"
 	"strings"
 
 	"golang.org/x/tools/go/packages"
@@ -74,20 +75,25 @@ type untranslatable struct{ why string }
 
 type pend struct{ name, term string }
 
+// what continue / break / return mean inside the loop body being translated (nil = not available)
+type loopCtx struct{ cont, brk, ret func() string }
+
 type tr struct {
-	t       *target
-	p       *packages.Package
-	fd      *ast.FuncDecl
-	recv    string
-	free    map[string]bool
-	notes   []string
-	bound   map[string]int // strict: names in scope
-	pending []pend         // partial operations met in the expression being translated
-	npend   int
-	loopK   []func() string
-	ignored map[types.Object]bool
-	names   map[types.Object]string
-	fscope  *types.Scope
+	t        *target
+	p        *packages.Package
+	fd       *ast.FuncDecl
+	recv     string
+	free     map[string]bool
+	notes    []string
+	bound    map[string]int // strict: names in scope
+	pending  []pend         // partial operations met in the expression being translated
+	npend    int
+	loops    []*loopCtx
+	named    []string // Coq names of the named results (strict)
+	namedPos map[string]token.Pos
+	ignored  map[types.Object]bool
+	names    map[types.Object]string
+	fscope   *types.Scope
 }
 
 func (x *tr) bad(n ast.Node, why string) {
@@ -134,7 +140,7 @@ var reserved = map[string]bool{
 	"if": true, "then": true, "else": true, "return": true, "forall": true, "exists": true, "Type": true, "Set": true, "Prop": true,
 	"Some": true, "None": true, "true": true, "false": true, "tt": true, "unit": true, "bool": true, "nat": true, "list": true,
 	"option": true, "byte": true, "bytes": true, "Z": true, "N": true, "S": true, "O": true, "error": true, "member": true,
-	"tr_": true, "k_": true, "st_": true,
+	"tr_": true, "k_": true, "st_": true, "brk_": true, "ret_": true,
 }
 
 func (x *tr) ident(name string) string {
@@ -817,10 +823,12 @@ func (x *tr) outerAssigned(stmts []ast.Stmt) []string {
 	lo, hi := stmts[0].Pos(), stmts[len(stmts)-1].End()
 	seen := map[string]bool{}
 	var out []string
+	pos := map[string]token.Pos{}
 	add := func(l ast.Expr) {
 		if x.ignorable(l) {
 			return
 		}
+		var at token.Pos
 		if id, ok := l.(*ast.Ident); ok {
 			if id.Name == "_" {
 				return
@@ -832,9 +840,11 @@ func (x *tr) outerAssigned(stmts []ast.Stmt) []string {
 			if obj.Pos() >= lo && obj.Pos() < hi {
 				return // declared inside
 			}
+			at = obj.Pos()
 		}
 		if nm, ok := x.lhsName(l); ok && !seen[nm] {
 			seen[nm] = true
+			pos[nm] = at
 			out = append(out, nm)
 		}
 	}
@@ -848,6 +858,16 @@ func (x *tr) outerAssigned(stmts []ast.Stmt) []string {
 				}
 			case *ast.IncDecStmt:
 				add(z.X)
+			case *ast.ReturnStmt:
+				if len(z.Results) > 0 && len(x.loops) >= 0 {
+					for _, nm := range x.named {
+						if !seen[nm] {
+							seen[nm] = true
+							pos[nm] = x.namedPos[nm]
+							out = append(out, nm)
+						}
+					}
+				}
 			case *ast.CallExpr:
 				if cs, ok := x.t.calls[x.callKey(z)]; ok && (cs.ev != "" || cs.tick || cs.state != "" || cs.tail != "") {
 					effect = true
@@ -856,6 +876,9 @@ func (x *tr) outerAssigned(stmts []ast.Stmt) []string {
 			return true
 		})
 	}
+	// canonical order: fields first, then variables in the order of their declarations (so that
+	// reordering statements does not change the shape of the generated state)
+	sort.SliceStable(out, func(i, j int) bool { return pos[out[i]] < pos[out[j]] })
 	if effect {
 		out = append(out, x.t.effects...)
 	}
@@ -1183,13 +1206,33 @@ func (x *tr) seq(stmts []ast.Stmt, k func() string) string {
 			}
 			return "(" + strings.Join(parts, ", ") + ")"
 		}
-		if len(x.loopK) > 0 {
-			x.bad(z, "return inside a loop")
+		if len(x.loops) > 0 {
+			// return inside a loop: Go assigns the values to the named results, the fold stops and
+			// the function ends with them
+			lc := x.loops[len(x.loops)-1]
+			if lc.ret == nil || (len(z.Results) > 0 && len(z.Results) != len(x.named)) {
+				x.bad(z, "return inside a loop of a function without named results")
+			}
+			if len(z.Results) == 0 {
+				return lc.ret()
+			}
+			mark := len(x.pending)
+			var vals []string
+			for _, r := range z.Results {
+				vals = append(vals, x.expr(r))
+			}
+			return x.hoistStmt(mark, func() string { return x.letTuple(x.named, tuple(vals), lc.ret) })
 		}
 		return x.results(z)
 	case *ast.BranchStmt:
-		if x.t.strict && z.Tok == token.CONTINUE && z.Label == nil && len(x.loopK) > 0 {
-			return x.loopK[len(x.loopK)-1]()
+		if x.t.strict && z.Label == nil && len(x.loops) > 0 {
+			lc := x.loops[len(x.loops)-1]
+			switch {
+			case z.Tok == token.CONTINUE:
+				return lc.cont()
+			case z.Tok == token.BREAK && lc.brk != nil:
+				return lc.brk()
+			}
 		}
 		x.bad(z, "branch statement outside the fragment")
 	case *ast.ExprStmt:
@@ -1199,7 +1242,7 @@ func (x *tr) seq(stmts []ast.Stmt, k func() string) string {
 				if cs, ok := x.t.calls[key]; ok {
 					if cs.tail != "" {
 						x.checkArgs(c)
-						if len(x.loopK) > 0 {
+						if len(x.loops) > 0 {
 							x.bad(z, "tail call inside a loop")
 						}
 						if after := tail(); after != x.t.final {
@@ -1726,18 +1769,25 @@ func (x *tr) rangeStrict(z *ast.RangeStmt, tail func() string) string {
 	mark := len(x.pending)
 	coll := x.expr(z.X)
 	x.noPending(mark, z)
+	hasBrk, hasRet := false, false
 	ast.Inspect(z.Body, func(n ast.Node) bool {
 		switch b := n.(type) {
 		case *ast.ReturnStmt:
-			x.bad(z, "return inside a loop")
+			hasRet = true
+			if len(x.named) == 0 {
+				x.bad(z, "return inside a loop of a function without named results")
+			}
 		case *ast.BranchStmt:
-			if b.Tok != token.CONTINUE || b.Label != nil {
-				x.bad(z, "break / goto / labelled continue inside a loop")
+			switch {
+			case b.Label != nil:
+				x.bad(z, "labelled branch inside a loop")
+			case b.Tok == token.BREAK:
+				hasBrk = true // (a break inside a switch is rejected by the switch)
+			case b.Tok != token.CONTINUE:
+				x.bad(z, "goto / fallthrough inside a loop")
 			}
-		case *ast.ForStmt, *ast.RangeStmt:
-			if n != ast.Node(z.Body) {
-				x.bad(z, "nested loop")
-			}
+		case *ast.ForStmt, *ast.RangeStmt, *ast.SelectStmt, *ast.FuncLit:
+			x.bad(z, "nested loop / select / function literal")
 		}
 		return true
 	})
@@ -1749,18 +1799,46 @@ func (x *tr) rangeStrict(z *ast.RangeStmt, tail func() string) string {
 		x.use(v)
 	}
 	el := x.objName(x.p.TypesInfo.Defs[vid], vid.Name)
-	st := tuple(vars)
-	x.loopK = append(x.loopK, func() string { return st })
+	// the fold state: the variables, then brk_ (the loop was left) and ret_ (.. by a return)
+	all := append([]string{}, vars...)
+	var init, cont, brk, ret []string
+	init, cont, brk, ret = append(init, vars...), append(cont, vars...), append(brk, vars...), append(ret, vars...)
+	if hasBrk || hasRet {
+		all, init, cont, brk, ret = append(all, "brk_"), append(init, "false"), append(cont, "false"), append(brk, "true"), append(ret, "true")
+	}
+	if hasRet {
+		all, init, cont, brk, ret = append(all, "ret_"), append(init, "false"), append(cont, "false"), append(brk, "false"), append(ret, "true")
+	}
+	lc := &loopCtx{cont: func() string { return tuple(cont) }}
+	if hasBrk {
+		lc.brk = func() string { return tuple(brk) }
+	}
+	if hasRet {
+		lc.ret = func() string { return tuple(ret) }
+	}
+	x.loops = append(x.loops, lc)
 	var lam string
-	if len(vars) == 1 {
-		body := x.bind([]string{el}, func() string { return x.seq(z.Body.List, func() string { return st }) })
+	if len(all) == 1 {
+		body := x.bind([]string{el}, func() string { return x.seq(z.Body.List, lc.cont) })
 		lam = fmt.Sprintf("(fun %s (%s : %s) => %s)", vars[0], el, elk, body)
 	} else {
-		body := x.bind(append([]string{el}, vars...), func() string { return x.seq(z.Body.List, func() string { return st }) })
-		lam = fmt.Sprintf("(fun st_ (%s : %s) => let '%s := st_ in\n  %s)", el, elk, st, body)
+		body := x.bind(append([]string{el}, all...), func() string { return x.seq(z.Body.List, lc.cont) })
+		if hasBrk || hasRet {
+			body = "if (brk_ : bool) then st_ else\n  " + body
+		}
+		lam = fmt.Sprintf("(fun st_ (%s : %s) => let '%s := st_ in\n  %s)", el, elk, tuple(all), body)
 	}
-	x.loopK = x.loopK[:len(x.loopK)-1]
-	return x.letTuple(vars, fmt.Sprintf("fold_left %s %s %s", lam, coll, st), tail)
+	x.loops = x.loops[:len(x.loops)-1]
+	after := tail
+	if hasRet {
+		if len(x.loops) > 0 {
+			x.bad(z, "return inside a nested loop")
+		}
+		after = func() string {
+			return fmt.Sprintf("if (ret_ : bool) then %s\n  else %s", x.t.final, tail())
+		}
+	}
+	return x.letTuple(all, fmt.Sprintf("fold_left %s %s %s", lam, coll, tuple(init)), after)
 }
 
 func translate(t *target) (def string, ok bool, why string) {
@@ -1769,7 +1847,7 @@ func translate(t *target) (def string, ok bool, why string) {
 	if fd == nil {
 		return "", false, "function not found"
 	}
-	x := &tr{t: t, p: p, fd: fd, free: map[string]bool{}, bound: map[string]int{}, ignored: map[types.Object]bool{}, names: map[types.Object]string{}}
+	x := &tr{t: t, p: p, fd: fd, free: map[string]bool{}, bound: map[string]int{}, ignored: map[types.Object]bool{}, names: map[types.Object]string{}, namedPos: map[string]token.Pos{}}
 	x.fscope = p.TypesInfo.Scopes[fd.Type]
 	if fd.Recv != nil && len(fd.Recv.List[0].Names) > 0 {
 		x.recv = fd.Recv.List[0].Names[0].Name
@@ -1818,6 +1896,8 @@ func translate(t *target) (def string, ok bool, why string) {
 							continue
 						}
 						nrs = append(nrs, nr{x.ident(n.Name), x.zeroOfKind(x.coqType(p.TypesInfo.Defs[n].Type()), n)})
+						x.named = append(x.named, x.ident(n.Name))
+						x.namedPos[x.ident(n.Name)] = n.Pos()
 					}
 				}
 			}
@@ -1854,6 +1934,9 @@ func translate(t *target) (def string, ok bool, why string) {
 			continue
 		}
 		seenNote[n] = true
+		if t.strict {
+			n = commentSafe(n)
+		}
 		notes += "   (* " + strings.ReplaceAll(n, "*)", "* )") + " *)\n"
 	}
 	return fmt.Sprintf("(* %s.%s  %s *)\n%sDefinition %s %s : %s :=\n  %s.\n", t.recv, t.fn, t.comment, notes, t.coq, strings.Join(t.params, " "), t.result, body), true, ""
